@@ -34,9 +34,9 @@ def tasks(ctx, quick):
                 "wavelength": rng.choice(WAVELENGTHS + [rng.uniform(0.05, 50)])}
         m = i % 6
         if m == 0:
-            add(dict(base, rel="density", k=rng.choice([0.5, 2.0, 3.7, 10.0, 1e-3, rng.uniform(0.1, 9)])))
+            add(dict(base, rel="density", k=rng.choice([0.5, 2.0, 3.7, 10.0, 1e-3, 1e-9, 1e-13, 1e4, rng.uniform(0.1, 9)])))
         elif m == 1:
-            c = rng.choice([2, 3, 0.5, 10, 1e-3, 7.25])
+            c = rng.choice([2, 3, 0.5, 10, 1e-3, 7.25, 1e-9, 1e-12, 1e6])
             add(dict(base, rel="cell", variant=["dict", [[z, a, q, x * c] for z, a, q, x in comp]]))
         elif m == 2:
             add(dict(base, rel="regroup", variant=["seq", regroup(rng, comp)]))
@@ -47,7 +47,10 @@ def tasks(ctx, quick):
         elif m == 4:
             add(dict(base, rel="energy"))
         else:
-            ws = sorted(rng.sample(WAVELENGTHS, rng.randint(1, 6)))
+            if i % 12 == 5:
+                ws = sorted(rng.sample([1, 2, 3, 4, 5, 6, 8, 12, 20], rng.randint(1, 5)))     # an integer-typed vector
+            else:
+                ws = sorted(rng.sample(WAVELENGTHS, rng.randint(1, 6)))
             add(dict(base, rel="vector", vector=ws, index=rng.randrange(len(ws))))
     grid = [10 ** (k / 4.0) for k in range(-8, 21)]
     for E in grid + [rng.uniform(0.03, 30000) for _ in range(40)]:
